@@ -170,7 +170,7 @@ public:
     QString describe() const override
     {
         return QStringLiteral("real: QXmppIceConnection/QXmppIceComponent (candidate pairing, checks, triggered checks, nomination, selection), QXmppStunTransaction (retransmission timers), QXmppStunMessage codec, QXmppUdpTransport ; "
-                              "stub: UDP (QUdpSocket entry points interposed at link time onto an in-process datagram network), clock and timers, randomness, the signalling channel (credentials and candidates handed over by scheduler ops), a forger without credentials with its own STUN encoder (OpenSSL HMAC); STUN/TURN servers are not simulated (host candidates only)");
+                              "stub: UDP (QUdpSocket entry points interposed at link time onto an in-process datagram network), clock and timers, randomness, the signalling channel (credentials and candidates handed over by scheduler ops), a forger without credentials with its own STUN encoder (OpenSSL HMAC); optional full-cone NAT and a STUN server (own encoder) for server-reflexive candidates; TURN relays are not simulated");
     }
 
     Plan generate(quint64 seed, const QString &tier) override
@@ -182,6 +182,10 @@ public:
         k[QStringLiteral("addrsA")] = r.chance(0.3) ? 2 : 1;
         k[QStringLiteral("addrsB")] = r.chance(0.3) ? 2 : 1;
         k[QStringLiteral("aControlling")] = r.chance(0.5);
+        // an agent may sit behind a full-cone NAT and learn its public mapping from a (simulated) STUN server
+        k[QStringLiteral("natA")] = r.chance(0.2);
+        k[QStringLiteral("natB")] = r.chance(0.2);
+        k[QStringLiteral("stunLoss")] = r.chance(0.3);
         const bool attack = r.chance(0.55);
         const int nCands = 4;   // upper bound used for op arguments (interpreted modulo what exists)
         QVector<Op> setup;
@@ -256,6 +260,8 @@ public:
             ag[0].controlling = plan.knob(QStringLiteral("aControlling")) == 1;
             ag[1].controlling = !ag[0].controlling;
             const QHostAddress attackerAddr(QString::fromLatin1(ATTACKER_IP));
+            const QHostAddress stunAddr(QStringLiteral("198.51.100.1"));
+            const bool natted[2] = { plan.knob(QStringLiteral("natA")) == 1, plan.knob(QStringLiteral("natB")) == 1 };
             auto note = [&](const QString &s) {
                 out.obs << s;
                 if (tr) {
@@ -343,26 +349,88 @@ public:
                         note(QStringLiteral("%1 component %2 signal: connected").arg(ag[a].name).arg(c));
                     });
                 }
+                if (natted[a]) {
+                    g.conn->setStunServer(stunAddr, 3478);
+                }
+                const int socketsBefore = net.sockets.size();
                 if (!g.conn->bind(g.addrs)) {
                     out.problems << QStringLiteral("C15:bind_failed|bind on simulated addresses failed");
                 }
-                g.locals = g.conn->localCandidates();
+                if (natted[a]) {
+                    for (int i = socketsBefore; i < net.sockets.size(); ++i) {
+                        net.nat.append({ net.sockets[i].addr, net.sockets[i].port, QHostAddress(QStringLiteral("203.0.113.%1").arg(a + 1)), (quint16)(30000 + i) });
+                    }
+                }
+            }
+            // ---- candidate gathering: the STUN server tells each agent behind a NAT its public mapping
+            if (natted[0] || natted[1]) {
+                bool lostOne = plan.knob(QStringLiteral("stunLoss")) != 1;
+                for (int guard = 0; guard < 60; ++guard) {
+                    while (!net.inflight.isEmpty()) {
+                        const Datagram d = net.inflight.takeFirst();
+                        if (!(d.dst == stunAddr && d.dport == 3478)) {
+                            continue;
+                        }
+                        if (!lostOne) {
+                            lostOne = true;
+                            out.faults[QStringLiteral("stun_server_request_lost")]++;
+                            continue;
+                        }
+                        const StunView v = parseStun(d.data);
+                        if (!v.ok || v.type != 0x0001) {
+                            continue;
+                        }
+                        Datagram resp;
+                        resp.src = stunAddr;
+                        resp.sport = 3478;
+                        resp.dst = d.src;
+                        resp.dport = d.sport;
+                        resp.data = buildStun(0x0101, v.id, { { 0x0020, xorAddr(d.src, d.sport) } }, 0, {}, true);
+                        net.deliver(resp);
+                        settle();
+                    }
+                    if (ag[0].conn->gatheringState() == QXmppIceConnection::CompleteGatheringState && ag[1].conn->gatheringState() == QXmppIceConnection::CompleteGatheringState) {
+                        break;
+                    }
+                    auto *disp = Dispatcher::instance();
+                    const qint64 due = disp->nextTimerDue();
+                    if (due < 0 || due > g_now_ms + 10000) {
+                        break;
+                    }
+                    Dispatcher::advanceTo(due);
+                    disp->fireOneDue(0);
+                    settle();
+                }
+                out.probes[QStringLiteral("agent_behind_nat")]++;
+            }
+            for (int a = 0; a < 2; ++a) {
+                ag[a].locals = ag[a].conn->localCandidates();
             }
             for (int a = 0; a < 2; ++a) {
                 for (int i = 0; i < ag[1 - a].locals.size(); ++i) {
                     ag[a].candsLeft << i;
                 }
             }
-            // ---- advertised priorities (RFC 5245 4.1.2.1): host type preference 126, component in the low byte
+            // ---- advertised priorities (RFC 5245 4.1.2.1): type preference 126 (host) / 100 (server reflexive), component in the low byte
             for (int a = 0; a < 2; ++a) {
-                if (ag[a].locals.size() != comps * ag[a].addrs.size()) {
-                    out.problems << QStringLiteral("C15:candidate_count|%1 advertises %2 candidates for %3 components x %4 addresses").arg(ag[a].name).arg(ag[a].locals.size()).arg(comps).arg(ag[a].addrs.size());
+                const int expectCount = comps * ag[a].addrs.size() * (natted[a] ? 2 : 1);
+                if (ag[a].locals.size() != expectCount) {
+                    out.problems << QStringLiteral("C15:candidate_count|%1 advertises %2 candidates, expected %3 (%4 components x %5 addresses%6)").arg(ag[a].name).arg(ag[a].locals.size()).arg(expectCount).arg(comps).arg(ag[a].addrs.size()).arg(natted[a] ? QStringLiteral(", host and server-reflexive") : QString());
                 }
                 for (const auto &c : std::as_const(ag[a].locals)) {
                     const quint32 pr = (quint32)c.priority();
                     const quint32 localPref = (pr >> 8) & 0xffff;
-                    const quint32 expect = (126u << 24) + (localPref << 8) + (256 - c.component());
-                    if (c.type() != QXmppJingleCandidate::HostType || pr != expect || !net.findAddr(c.host(), c.port())) {
+                    const bool host = c.type() == QXmppJingleCandidate::HostType, srflx = c.type() == QXmppJingleCandidate::ServerReflexiveType;
+                    const quint32 expect = ((host ? 126u : 100u) << 24) + (localPref << 8) + (256 - c.component());
+                    bool addressOk = false;
+                    if (host) {
+                        addressOk = net.findAddr(c.host(), c.port()) != nullptr;
+                    } else if (srflx) {
+                        for (const auto &m : std::as_const(net.nat)) {
+                            addressOk = addressOk || (m.pub == c.host() && m.pubPort == c.port());
+                        }
+                    }
+                    if (!(host || srflx) || pr != expect || !addressOk) {
                         out.problems << QStringLiteral("C15:advertised_priority|%1 advertises candidate %2:%3 component %4 type %5 with priority %6 (expected %7)").arg(ag[a].name, c.host().toString()).arg(c.port()).arg(c.component()).arg((int)c.type()).arg(pr).arg(expect);
                     }
                 }
